@@ -15,7 +15,7 @@ use super::MinimiserGenerator;
 use crate::verif_support::*;
 
 /// canonical m-mer of s[q..q+M] (all clean)
-fn canon_at<const M: usize>(s: &[u8], q: usize) -> u64 {
+pub fn canon_at<const M: usize>(s: &[u8], q: usize) -> u64 {
     let w = &s[q..q + M];
     let f = fwd_code(w);
     let r = rev_code(w);
@@ -27,7 +27,7 @@ fn canon_at<const M: usize>(s: &[u8], q: usize) -> u64 {
 }
 
 /// minimiser of the window s[st..st+W] (all clean)
-fn window_min<const W: usize, const M: usize>(s: &[u8], st: usize) -> u64 {
+pub fn window_min<const W: usize, const M: usize>(s: &[u8], st: usize) -> u64 {
     let mut mn = u64::MAX;
     let mut p = 0usize;
     while p + M <= W {
@@ -41,7 +41,7 @@ fn window_min<const W: usize, const M: usize>(s: &[u8], st: usize) -> u64 {
 }
 
 /// number of consecutive clean bases ending right before position p
-fn clean_run<const N: usize>(s: &[u8], p: usize) -> usize {
+pub fn clean_run<const N: usize>(s: &[u8], p: usize) -> usize {
     let mut c = 0usize;
     let mut stop = false;
     let mut j = 0usize;
@@ -60,7 +60,7 @@ fn clean_run<const N: usize>(s: &[u8], p: usize) -> usize {
 
 /// The functional invariant: what each field means at a loop top / between calls.
 /// c = number of clean bases since the last ambiguous byte (or the start).
-fn inv<const W: usize, const M: usize, const N: usize>(st: &MState, s: &[u8]) -> bool {
+pub fn inv<const W: usize, const M: usize, const N: usize>(st: &MState, s: &[u8]) -> bool {
     let len = s.len();
     let cap = W - M + 1;
     let p = st.pos;
@@ -146,7 +146,7 @@ fn inv<const W: usize, const M: usize, const N: usize>(st: &MState, s: &[u8]) ->
     ok
 }
 
-fn any_state() -> MState {
+pub fn any_state() -> MState {
     let mut buff = [0u64; BCAP];
     let mut i = 0;
     while i < BCAP {
